@@ -216,6 +216,9 @@ def explore_class(r, which, k, G, start, R, plan, fastok=None):
                 if want_fast and fastok:
                     rt_case(r, which, k, G, acc, start, T, tab, bits, True)
                     n += 1
+            if tab is not None and U.rows(tab) != [list(x) for x in T]:
+                r.v('%s|table-argument-modified-by-the-coder' % which, 'tabmod', {'k': k, 'G': G, 'start': start, 'table': T, 'Lmax': Lmax},
+                    T if len(T) <= 16 else None, U.rows(tab) if len(T) <= 16 else None)
     return n
 
 
